@@ -179,7 +179,9 @@ def in_domain(cands, tag):
 # --------------------------------------------------------------------------- EnumDiscriminants (C09)
 DGEN = {"none": ("", "", ""), "ty": ("<T: Default + Clone + PartialEq + ::core::fmt::Debug>", "<u16>", ""),
         "lt": ("<'a>", "<'static>", ""), "ltty": ("<'a, T>", "<'static, u16>", " where T: Default + Clone + PartialEq + ::core::fmt::Debug + 'a"),
-        "tywhere": ("<T>", "<u16>", " where T: Default + Clone + PartialEq + ::core::fmt::Debug")}
+        "tywhere": ("<T>", "<u16>", " where T: Default + Clone + PartialEq + ::core::fmt::Debug"),
+        "tydef": ("<T: Default + Clone + PartialEq + ::core::fmt::Debug = u8>", "<u16>", ""),
+        "lttydef": ("<'a, T: Default + Clone + PartialEq + ::core::fmt::Debug + 'a = u8, const N: usize = 2>", "<'static, u16, 3>", "")}
 
 
 def disc_def(rng, did):
@@ -187,15 +189,15 @@ def disc_def(rng, did):
     base_repr = repr_ if repr_ != "C" else "none"
     E = repr_def(rng, did, n=rng.choice([1, 2, 3, 4, 5]), repr_=base_repr, anchored=False, kinds="mixed", generics="none", for_disc=True)
     # data-carrying variants with explicit discriminants need a primitive repr (rustc); repr(C)/none: keep implicit
-    E["dgen"] = rng.choice(["none", "none", "ty", "lt", "ltty", "tywhere"])
+    E["dgen"] = rng.choice(["none", "none", "ty", "lt", "ltty", "tywhere", "tydef", "lttydef"])
     for v in E["variants"]:
         for f in v["fields"]:
-            if E["dgen"] in ("ty", "ltty", "tywhere") and rng.random() < 0.4:
+            if E["dgen"] in ("ty", "ltty", "tywhere", "tydef", "lttydef") and rng.random() < 0.4:
                 f["ty"] = "T"
-            elif E["dgen"] in ("lt", "ltty") and rng.random() < 0.4:
+            elif E["dgen"] in ("lt", "ltty", "lttydef") and rng.random() < 0.4:
                 f["ty"] = "str"
     # every generic parameter must be used
-    need = {"none": [], "ty": ["T"], "tywhere": ["T"], "lt": ["str"], "ltty": ["T", "str"]}[E["dgen"]]
+    need = {"none": [], "ty": ["T"], "tywhere": ["T"], "lt": ["str"], "ltty": ["T", "str"], "tydef": ["T"], "lttydef": ["T", "str"]}[E["dgen"]]
     have = {f["ty"] for v in E["variants"] for f in v["fields"]}
     for t in need:
         if t not in have:
@@ -215,7 +217,9 @@ def disc_def(rng, did):
     E["dstyle"] = rng.choice(["none", "snake_case", "SCREAMING_SNAKE_CASE", "kebab-case", "camelCase"]) if E["dder"] else "none"
     E["dsplit"] = rng.randrange(2)
     for k, v in enumerate(E["variants"]):
-        v["dser"] = [cp("d%d-%s" % (k, "Xy"))] if (E["dder"] and rng.random() < 0.3) else []
+        r = rng.random()
+        # one or two separate variant-level pass-through attributes (the longer literal names the variant)
+        v["dser"] = ([cp("d%d-%s" % (k, "Xy"))] if r < 0.2 else [cp("s%d" % k), cp("longer-%d" % k)] if r < 0.4 else []) if E["dder"] else []
     return E
 
 
@@ -245,7 +249,7 @@ def disc_module(E):
     for v in E["variants"]:
         if v.get("dser"):
             v = dict(v)
-            v["xattrs"] = list(v.get("xattrs", [])) + ['#[strum_discriminants(strum(serialize = %s))]' % D.rs_str(v["dser"][0])]
+            v["xattrs"] = list(v.get("xattrs", [])) + ['#[strum_discriminants(strum(serialize = %s))]' % D.rs_str(s) for s in v["dser"]]
         lines += D.print_variant(v, 0, with_strum=False, indent="    ")
     lines.append("}")
     # reference enum for the layout clause: same repr lines, same discriminants, no fields
